@@ -1725,3 +1725,22 @@ def stale_source_skip(ctx, rid: str) -> None:
                  "each selected transition is executed only if its source is still active (or it is the only one)" if ok else
                  "the per-transition executor call is not dominated by the stale-source test: a transition whose source "
                  "was exited by an earlier winner of the same step still fires", s.call)
+
+
+def armed_on_every_entry(ctx, rid: str) -> None:
+    """Every state the entry routine enters has `_schedule_state_tasks` called for it, once, on every normal path through the entry loop
+    (its `after` timers as well as its services are armed there: a necessary condition of C08 and C09 alike; seeded changes C05-d, C08-d)."""
+    c = ctx.c
+    for v in VIEWS:
+        en = roles(ctx, v).enter
+        g = cfg_of(en.node)
+        sc = [n for call in self_calls_in(en, "_schedule_state_tasks") for n in cfg_node_of(en, call)]
+        loop = next((l for l in own_nodes(en.node) if isinstance(l, ast.For) and en.params[1] in norm(l.iter)), None)
+        c.need(loop is not None and sc, f"entry loop / schedule call in {en.short}")
+        hdr = g.nodes_of(loop)[0]
+        at_least = unconditional_in_loop(g, hdr, sc)
+        at_most = not any(s2 in g.reachable_from_succ(s1, blocked_nodes={hdr}, follow_exc=False) for s1 in sc for s2 in sc)
+        c.ob(rid, at_least, en, "schedule-every-entered-state", "every entered state has its timers and services armed on every normal path" if at_least else
+             "a path through the entry loop skips _schedule_state_tasks: an entered state's `after` timers (and services) never start", loop)
+        c.ob(rid, at_most, en, "schedule-at-most-once", "no path arms a state's tasks twice in one entry" if at_most else
+             "a path through the entry loop calls _schedule_state_tasks twice for one state: its timers are armed twice", loop)
